@@ -176,7 +176,8 @@ class AbsoluteModelRef:
             self._old: ContextInjectionType = None
 
         def __enter__(self):
-            self._old = self.data.context
+            # Attributes of threading.local exist only in the thread that set them: other threads start without context
+            self._old = getattr(self.data, 'context', None)
             self.data.context = self.context
 
         def __exit__(self, exc_type, exc_val, exc_tb):
@@ -192,7 +193,7 @@ class AbsoluteModelRef:
 
     def to_typing_code(self, types_style: Dict[Union[BaseType, Type[BaseType]], dict]) \
             -> Tuple[ImportPathList, str]:
-        context_data = self.Context.data.context
+        context_data = getattr(self.Context.data, 'context', None)
         if context_data:
             model_path = context_data.get(self.model, "")
             if isinstance(model_path, ModelMeta):
